@@ -77,6 +77,8 @@ def random_bar(rng, key, meter, values, rest_p=0.3, fill=None, **kw):
             break
         v = rng.choice(fits)
         notes = None if rng.random() < rest_p else random_notes(rng, **kw)
+        if notes is None and rng.random() < 0.25:
+            notes = []          # a rest given as an empty container (bar + [], place_notes(NoteContainer(), v))
         entries.append({"v": [v.base, v.dots, v.r1, v.r2], "notes": notes})
         total += v.length
     return {"key": key, "meter": list(meter), "entries": entries}
@@ -95,13 +97,19 @@ def random_track(rng, values, nbars=None, one_key_meter=True, instrument=None, m
         bars.append(random_bar(rng, key, meter, values, rest_p=rp, **kw))
     if instrument == "random":
         r = rng.random()
-        if r < 0.5:
-            instrument = {"kind": "midi", "nr": rng.randint(0, 127), "name": ""}
+        if r < 0.45:
+            instrument = {"kind": "midi", "nr": rng.choice([0, 127, rng.randint(0, 127), rng.randint(0, 127)]), "name": ""}
+        elif r < 0.55:
+            # any instrument object carrying an instrument_nr attribute (documented by write_Track)
+            instrument = {"kind": "attr", "nr": rng.randint(0, 127)}
         elif r < 0.65:
             instrument = {"kind": "plain"}
         else:
             instrument = None
     name = "".join(rng.choice("abcdefghij KLMN-_019") for _ in range(rng.randint(0, 14)))
+    if rng.random() < 0.06:
+        # long names: the length of the name meta event needs two VLQ bytes from 128 characters on
+        name = "".join(rng.choice("abcdefghij KLMN-_019") for _ in range(rng.choice([127, 128, 129, 200, 255, 256, 300])))
     return {"name": name, "instrument": instrument, "bars": bars}
 
 
@@ -143,6 +151,9 @@ def build_track(tspec):
             ins.instrument_nr = tspec["instrument"]["nr"]
             if tspec["instrument"].get("name"):
                 ins.name = tspec["instrument"]["name"]
+        elif tspec["instrument"]["kind"] == "attr":
+            ins = Instrument()
+            ins.instrument_nr = tspec["instrument"]["nr"]
         else:
             ins = Instrument()
     t = Track(ins)
